@@ -262,8 +262,13 @@ class Hist05:
             return ('fix', '-d', rng.choice(a.disks))
         if c < 0.84:
             return ('fix', '-f', rng.choice(NAMES).split('/')[-1])
-        if c < 0.92:
+        if c < 0.88:
             return ('fix', '-m', '-d', rng.choice(a.disks))
+        if c < 0.93:
+            # a block range from the start: files that end beyond it and had to be created are removed again (not FINISHED)
+            return ('fix', '-B', str(rng.randint(1, 6)))
+        if c < 0.96:
+            return ('fix', '-b')      # --filter-block-error: only the stripes marked bad
         return ('fix', '-e')
 
     def run_generated(self):
@@ -292,7 +297,7 @@ class Hist05:
         for op in self.gen_damage():
             self.do(op)
         fx = self.gen_fix()
-        if '-e' in fx:
+        if '-e' in fx or '-b' in fx:
             self.do(('scrub',))
         self.do(fx)
 
@@ -383,6 +388,21 @@ class Hist05:
                 sel = sel and (rel.split('/')[-1] == opts[i + 1]); i += 2
             elif o == '-m':
                 sel = sel and ((d, rel) not in before); i += 1
+            elif o == '-B':
+                n = int(opts[i + 1]); i += 2
+                inr = [pos < n for s, pos, h in f['blocks']]
+                if not inr:
+                    sel = sel and 'skip'      # no block: judged with the objects, not here
+                elif not any(inr):
+                    sel = False               # wholly outside the range: must not be touched
+                elif not all(inr):
+                    sel = sel and 'skip'      # partly inside: only the blocks of the range are repaired, not judged as a file
+            elif o == '-b':
+                # only the stripes marked bad are processed (and only synced files): a file without a bad block must not be touched,
+                # a file with one is repaired only there -- not judged as a whole file
+                bad = any(st['info'][pos] and st['info'][pos]['bad'] for s, pos, h in f['blocks'] if pos < len(st['info']))
+                sel = False if not bad else (sel and 'skip')
+                i += 1
             elif o == '-e':
                 bad = any(st['info'][pos] and st['info'][pos]['bad'] for s, pos, h in f['blocks'] if pos < len(st['info']))
                 if not bad:
@@ -466,7 +486,7 @@ class Hist05:
             return None
         before = a.snapshot_data()
         pred = None
-        if self.model:
+        if self.model and '-b' not in opts:      # --filter-block-error is not in the fix model: judged by the oracle only
             try:
                 self.note_content()
                 self.mb = c01_model.ModelSide(a, st, self.model, history=True, cand_hist=self.cand)
@@ -493,6 +513,15 @@ class Hist05:
                     if (b[:3] if b else None) != (c[:3] if c else None):
                         property_ok = False
                         chk.violation('written_excluded', 'fix %s wrote %s:%s although the filters exclude it' % (' '.join(opts), d, rel), replay)
+                    continue
+                if sel == 'skip':
+                    # partly selected (block range / bad blocks only): the one thing required is that it is not reported recovered
+                    # with other bytes than the recorded ones
+                    ondisk = c[1] if (c is not None and c[0] == 'f') else None
+                    rec = a.find_version(d, f)
+                    if any(t == 'status:recovered:%s:%s' % (d, f['sub'].decode('latin1')) for t in interesting(r.tags)) and rec is not None and ondisk != rec:
+                        property_ok = False
+                        chk.violation('wrong_file', 'after `fix %s` %s:%s is reported recovered but has other bytes than the recorded version' % (' '.join(opts), d, rel), replay)
                     continue
                 self.stats['files_judged'] += 1
                 rec = a.find_version(d, f)
@@ -563,6 +592,38 @@ def key_open(chk, key):
 def corpus_cases():
     d = os.path.join(VERIF, 'corpus', 'C05')
     return sorted(glob.glob(os.path.join(d, '*.json')))
+
+
+def observations05(chk, binary):
+    """a behaviour found in the coverage round, measured on every run (proposed key; a violation once the lead lists it): `fix -S n`
+    on a MISSING file whose first blocks lie before position n recreates the file with those blocks as a hole of zeros, reports
+    status:recovered, restores the recorded time-stamp and exits 0 (summary:exit:recovered); diff then says the file is equal"""
+    a = Array(binary, nd=2, np_=1)
+    out = {}
+    try:
+        A = bytes([1]) * 1024 + bytes([2]) * 1024 + bytes([3]) * 512
+        a.write('d1', 'a', A, mtime_ns=1700000000 * 10**9)
+        a.write('d2', 'b', bytes([4]) * 1024, mtime_ns=1700000000 * 10**9)
+        if a.run('sync').rc == 0:
+            os.unlink(a.path('d1', 'a'))
+            r = a.run('fix', '-S', '1')
+            p = a.path('d1', 'a')
+            there = os.path.isfile(p)
+            data = open(p, 'rb').read() if there else None
+            rep = any(t == 'status:recovered:d1:a' for t in r.tags)
+            out['fix_start_after_first_block_of_missing_file'] = {'rc': r.rc, 'file_present': there, 'bytes_are_recorded': data == A, 'reported_recovered': rep,
+                                                                  'mtime_recorded': there and os.stat(p).st_mtime_ns == 1700000000 * 10**9}
+            if there and data != A and rep:
+                key = 'F-C05-fix-start-range-recovers-file-with-hole'
+                msg = ('`fix -S 1` on a missing 3-block file (blocks at positions 0-2) recreates it with block 0 zero-filled, reports status:recovered, '
+                       'restores the recorded mtime and exits %d; the file has the recorded size and time-stamp, so diff/sync see it as unchanged' % r.rc)
+                if any(k.get('property') == 'C05' and k.get('key') == key for k in chk.kf):
+                    chk.violation('obs_start_range', msg, {'recipe': '2 data disks, 1 parity, blocksize 1; d1/a 2560 B, d2/b 1024 B; sync; rm d1/a; fix -S 1'}, finding_key=key)
+                else:
+                    chk.notes.append('OBSERVATION start-range (proposed key %s): %s' % (key, msg))
+    finally:
+        shutil.rmtree(a.root, ignore_errors=True)
+    return out
 
 
 def main(tier, replay=None):
@@ -642,6 +703,10 @@ def main(tier, replay=None):
                     'wrong_files_attributed_to_known_findings': tot.get('known', 0), 'fix_runs_replayed_by_model': tot.get('model', 0),
                     'traces_validated_against_impl': tot.get('model', 0), 'corpus': reproduced})
     chk.cov['samples'] = samples
+    try:
+        chk.cov['observations'] = observations05(chk, binary)
+    except Exception as e:
+        chk.notes.append('observations failed: %s' % e)
     if ob['failed'] and not chk.violations:
         chk.violation('obligation', 'proof obligation of C05 no longer checks: %s' % ob['failed'][0],
                       {'theorem_file': 'coq/Props/Properties_C05.v', 'failed': ob['failed'], 'log_tail': ob['log'][-1500:]}, no_input=True)
